@@ -1,10 +1,17 @@
 #!/usr/bin/env bash
 # tools/on-rev.sh <rev> <command...>  – temporarily put /repo/src (and Cargo.toml) at <rev>, run the command, restore HEAD.
-# Used only for sensitivity experiments (e.g. the hooks-only tree 78e6fa5 = all defects present).
+# Used only for sensitivity experiments (e.g. the hooks-only tree 78e6fa5+b21e23e = all defects present, all hooks).
+# The evidence directory and failures directory are preserved; the harness is rebuilt against HEAD afterwards.
 set -u
 rev="$1"; shift
 git -C /repo diff --quiet || { echo "/repo has uncommitted changes" >&2; exit 2; }
-git -C /repo checkout -q "$rev" -- src Cargo.toml
+save=$(mktemp -d); cp -a /verif/evidence "$save/evidence" 2>/dev/null
+# "<rev>+<commit>+<commit>": check out <rev>, then apply the diffs of the listed (hook) commits on top
+base="${rev%%+*}"; extra="${rev#"$base"}"
+git -C /repo checkout -q "$base" -- src Cargo.toml
+for c in ${extra//+/ }; do git -C /repo show "$c" | git -C /repo apply || { echo "cannot apply $c" >&2; git -C /repo checkout -q HEAD -- src Cargo.toml; exit 2; }; done
 "$@"; rc=$?
 git -C /repo checkout -q HEAD -- src Cargo.toml
+rm -rf /verif/evidence; [ -d "$save/evidence" ] && cp -a "$save/evidence" /verif/evidence; rm -rf "$save"
+/verif/check --build
 exit $rc
